@@ -73,7 +73,7 @@ PROPS = {
                                       'DW.C13_zeroize_inert', 'DW.C13_forgetDiscr'],
                 enums=['discriminants', 'incomparable'], configs_quick=ALL_CONFIGS, cross_config=True, design='7/C13'),
     'C14': dict(traits=None, part='all', theorems=['DW.C14_no_method_calls', 'DW.C14_core_paths_rooted', 'DW.C14_trait_path', 'DW.C14_crate_option', 'DW.C14_fn_paths_rooted',
-                                                'DW.C14_simple_distinct', 'DW.C14_field_vs_simple', 'DW.C14_self_vs_other', 'DW.C14_binders_fresh'],
+                                                'DW.C14_simple_distinct', 'DW.C14_field_vs_simple', 'DW.C14_self_vs_other', 'DW.C14_binders_fresh', 'DW.C14_crate_anywhere'],
                 enums=['debug', 'zeroize', 'names'], configs_quick=['default', 'zod'], stage1=True, diagnostics=True, design='7/C14'),
     'C15': dict(traits=[], outcome='message', theorems=['DW.C15_incomparable_total', 'DW.C15_incomparable_needs_partial', 'DW.C15_incomparable_not_both',
                                                         'DW.C15_default_unique', 'DW.C15_default_needs_derive', 'DW.C15_union_traits',
@@ -82,7 +82,7 @@ PROPS = {
                                                         'DW.C15_skip_inner_no_fields', 'DW.C15_lifetime_bound', 'DW.C15_bad_trait', 'DW.C15_bad_trait_instances',
                                                         'DW.C15_empty_struct', 'DW.C15_use_case'],
                 enums=['invalid', 'skip', 'default'], configs_quick=['default', 'zeroize'], diagnostics=True, design='7/C15'),
-    'C16': dict(traits=[], outcome='message', theorems=['DW.C16_no_panic_stage2', 'DW.Input.fromInput_np', 'DW.genPanic_none', 'DW.C16_stage1_item_kept', 'DW.C16_stage1_forward'],
+    'C16': dict(traits=[], outcome='message', theorems=['DW.C16_no_panic_stage2', 'DW.Input.fromInput_np', 'DW.genPanic_none', 'DW.C16_stage1_item_kept', 'DW.C16_stage1_forward', 'DW.C16_pipeline'],
                 enums=['invalid', 'names'], stage1=True, malformed=0.6, configs_quick=['default', 'zeroize'], diagnostics=True, design='7/C16'),
     'C17': dict(traits=['Eq', 'Clone'], theorems=['DW.C17_eq_obligations', 'DW.C17_union', 'DW.C06_skipped_never_mentioned'], enums=['skip', 'bounds'], design='7/C17'),
     'C18': dict(traits=['Zeroize'], theorems=['DW.C18_effect'], enums=['zeroize', 'skip'], configs_quick=['zeroize', 'zod'],
